@@ -276,8 +276,10 @@ def py_binop(op, a, b):
                 out.extend(s.chunks)
             return mk_rope(s.kind, out)
         if len(s.chunks) == 1 and isinstance(s.chunks[0], BL) and len(s.chunks[0].items) == 1:
-            cnt = simp(z3.If(T(n) < 0, I(0), T(n)))
-            return mk_rope(s.kind, [BR(s.chunks[0].items[0], cnt)])
+            from .sym import _decide
+            if _decide(T(n) <= 0):
+                return mk_rope(s.kind, [])
+            return mk_rope(s.kind, [BR(s.chunks[0].items[0], simp(T(n)))])
         raise OutOfReach("repetition of a multi-element sequence a symbolic number of times")
     if op == "*" and isinstance(a, list) and is_intlike(b):
         cn = const_of(T(b))
